@@ -206,16 +206,16 @@ def ops : List (String × Handler) := [
     let tbl := emitTable force ir
     let cls := emitClass force hasDoc ir
     let hyb := emitHybrid force hasDoc ir
-    let t2c := tbl >>= tableToClass
+    let t2c := andThen tbl tableToClass
     return Json.mkObj [
       ("table", exceptJ (fun a => Json.mkObj [("target", str a.1), ("call", tableJ a.2)]) tbl),
       ("class", exceptJ classJ cls),
       ("hybrid", exceptJ classJ hyb),
-      ("parsed_table", exceptJ parsedIRJ (tbl >>= parseTable)),
-      ("parsed_class", exceptJ parsedIRJ (cls >>= parseClass)),
-      ("parsed_hybrid", exceptJ parsedIRJ (hyb >>= parseClass)),
+      ("parsed_table", exceptJ parsedIRJ (andThen tbl parseTable)),
+      ("parsed_class", exceptJ parsedIRJ (andThen cls parseClass)),
+      ("parsed_hybrid", exceptJ parsedIRJ (andThen hyb parseClass)),
       ("table_to_class", exceptJ classJ t2c),
-      ("parsed_table_to_class", exceptJ parsedIRJ (t2c >>= parseClass)),
+      ("parsed_table_to_class", exceptJ parsedIRJ (andThen t2c parseClass)),
       ("normal_form", Json.arr ((ensurePK force ps).map (fun kv => Json.arr #[str kv.1,
           optStr (normDoc kv.1 kv.2.doc kv.2.default.isSome)])).toArray)]),
   -- a class body by statement kinds → parse.sqlalchemy
